@@ -152,16 +152,17 @@ Example C07_rotate_example :
 Proof. split; vm_compute; reflexivity. Qed.
 
 (* ---------- get_ruleset: the rulesets handed out do not depend on the history of calls ----------
-   hmm_detection.get_ruleset caches the rulesets it builds, Ruleset.__post_init__ scales the rule
-   OBJECTS it is given in place and copy_with_replacements passes the same objects on; the model
-   (Model.v: object store, parse_rules, post_init, from_files, copy_with_replacements, get_ruleset)
-   keeps that sharing.  For every list of rule files without duplicate rule names and EVERY
+   hmm_detection.get_ruleset caches the rulesets it builds; Ruleset.__post_init__ (as repaired for
+   C07-K2) scales COPIES of the rule objects it is given and remembers the objects as given,
+   copy_with_replacements hands those on; the model (Model.v: object store, parse_rules, post_init,
+   from_files, copy_with_replacements, get_ruleset) keeps the sharing that is left.  For every list
+   of rule files without duplicate rule names and EVERY
    sequence of calls in one process (any strictness, name and category selections, taxon,
    multipliers), every call that returns gives a ruleset that holds - read after the LAST call of
    the sequence, so no later call has touched it - exactly the rules its own request selects, in
    file order, each with cutoff/neighbourhood = int(written distance * its own multiplier); a call
-   raises (ValueError) only for a non-positive multiplier.  Invariant behind it: a cache miss
-   scales only objects it has just allocated. *)
+   raises (ValueError) only for a non-positive multiplier.  Invariant behind it: no constructor
+   changes an object that exists already. *)
 Theorem C07_get_ruleset_history_independent : forall files qs st outs,
   (forall s, NoDup (map r_name (rule_files files s))) ->
   run_requests files init_state qs = (st, outs) ->
@@ -223,30 +224,82 @@ Proof.
   intros s. unfold rule_files. destruct (Z.to_nat s) as [|[|n]]; cbn; repeat constructor; cbn; intuition discriminate.
 Qed.
 
-(* Finding C07-K2 (recorded, not repaired): the statement "a ruleset holds written distance * its
-   multipliers whatever else is built from it" is FALSE for the public constructors outside
-   get_ruleset.  (a) A copy of a ruleset handed out by get_ruleset - same rules, same multipliers -
-   scales the shared rule objects again, so the ORIGINAL no longer holds what its request asks for
-   (terpene-like rule 20000/10000, fungal 1 and 3/2: 15000 becomes 22500). *)
-Theorem C07_ruleset_copy_history_refuted :
-  exists files q st rs h' rs',
-    get_ruleset files init_state q = Ok (st, rs) /\
-    copy_with_replacements rs (rs_rules rs) (rs_mults rs) (st_heap st) = Ok (h', rs') /\
-    deref (st_heap st) (rs_rules rs) = expected_rules files q /\
-    deref h' (rs_rules rs) <> expected_rules files q.
-Proof. exact ruleset_copy_changes_source. Qed.
-Print Assumptions C07_ruleset_copy_history_refuted.
+(* Finding C07-K2 ruleset_copy_rescales_shared_rules (REPAIRED): the statement "a ruleset holds the
+   distances it was given * its own multipliers, whatever else is built from it" now holds for the
+   public constructors outside get_ruleset too (before the repair both statements below were
+   refuted: a copy of the fungal ruleset turned the terpene neighbourhood 15000 of the ORIGINAL
+   into 22500, and from_files(multipliers=m) applied m twice).
+   (a) After any history of get_ruleset calls, copying ANY ruleset handed out - any sub-selection
+   by names, any multipliers - gives a ruleset with that selection of the written rules times ITS
+   multipliers, and every ruleset handed out still holds what its own request asks for. *)
+Theorem C07_ruleset_copy_history_independent : forall files qs st outs,
+  (forall s, NoDup (map r_name (rule_files files s))) ->
+  run_requests files init_state qs = (st, outs) ->
+  forall q rs names m, In (q, Ok rs) (combine qs outs) ->
+  exists h' rs',
+    copy_with_replacements rs (named_refs (st_heap st) names (rs_rules rs)) m (st_heap st) = Ok (h', rs') /\
+    deref h' (rs_rules rs') = map (scale_rule m) (named_rules names (select (q_names q) (q_cats q) (rule_files files (q_strict q)))) /\
+    rs_mults rs' = m /\
+    Forall2 (fun q o => match o with
+                        | Ok rs => deref h' (rs_rules rs) = expected_rules files q /\ rs_mults rs = effective q
+                        | Err e => e = E_Value /\ mults_valid (effective q) = false
+                        end) qs outs.
+Proof. exact ruleset_copy_history. Qed.
+Print Assumptions C07_ruleset_copy_history_independent.
 
-(* (b) Ruleset.from_files(..., multipliers=m) applies m twice: once in the parser, once in
-   __post_init__ (get_ruleset always passes the unit multipliers here, which hides it) *)
-Theorem C07_from_files_multipliers_refuted :
-  exists base m h rs,
-    NoDup (map r_name base) /\ mults_valid m = true /\
-    from_files base m (st_heap init_state) = Ok (h, rs) /\
-    deref h (rs_rules rs) <> map (scale_rule m) base /\
-    deref h (rs_rules rs) = map (scale_rule m) (map (scale_rule m) base).
-Proof. exact from_files_scales_twice. Qed.
-Print Assumptions C07_from_files_multipliers_refuted.
+(* (b) Ruleset.from_files(..., multipliers=m), from any state of the object store: the rules of the
+   files times m, once - and no existing object changes *)
+Theorem C07_from_files_multipliers_once : forall base m h, NoDup (map r_name base) ->
+  exists h' rs, from_files base m h = Ok (h', rs) /\ deref h' (rs_rules rs) = map (scale_rule m) base /\ rs_mults rs = m /\
+                forall j, (j < h_next h)%nat -> h_get h' j = h_get h j.
+Proof. exact from_files_scales_once. Qed.
+Print Assumptions C07_from_files_multipliers_once.
+
+(* (c) the constructor itself over rule objects that somebody else holds (another ruleset, the
+   caller's list): the new ruleset holds those rules times its multipliers on objects of its own,
+   and every object that existed - so every other holder's view - is unchanged *)
+Theorem C07_ruleset_constructor_shared_objects : forall refs m h, (forall i, In i refs -> (i < h_next h)%nat) ->
+  NoDup (map r_name (deref h refs)) ->
+  exists h' rs, ruleset_init refs m h = Ok (h', rs) /\ deref h' (rs_rules rs) = map (scale_rule m) (deref h refs) /\
+                rs_mults rs = m /\ forall j, (j < h_next h)%nat -> h_get h' j = h_get h j.
+Proof. exact ruleset_init_shared. Qed.
+Print Assumptions C07_ruleset_constructor_shared_objects.
+
+(* (d) EVERY sequence of from_files / copy_with_replacements / Ruleset(...) calls (the sequences
+   family (D) of the harness runs on the real constructors): read after the last call, every
+   ruleset made holds the rules [api_spec] lists for it - for from_files and everything copied
+   from it, the selected rules of the files as WRITTEN - times its own multipliers; the only
+   error is a reference to a ruleset that was not made *)
+Theorem C07_constructors_history_independent : forall files ops h made,
+  (forall s, NoDup (map r_name (rule_files files s))) ->
+  run_api files (st_heap init_state) [] ops = (h, made) ->
+  Forall2 (fun o s => match o, s with
+                      | Ok rs, Some (w, m) => deref h (rs_rules rs) = map (scale_rule m) w /\ rs_mults rs = m
+                      | Err e, None => e = E_Index
+                      | _, _ => False
+                      end) made (api_spec files [] ops).
+Proof. exact constructors_history. Qed.
+Print Assumptions C07_constructors_history_independent.
+
+(* non-vacuity, and the witnesses of the repaired finding as regression examples: from_files with
+   1 and 3/2 gives 15000 (was 22500); a copy with the same multipliers gives 15000 again and leaves
+   the first at 15000 (was 22500 / 22500); a copy of the copy with 2 and 2 gives 40000/20000; the
+   bare constructor over the objects of the first with 2 and 2 scales what it is given: 40000/30000 *)
+Example C07_constructors_example :
+  let files := [[mkRule 7 1 20000 10000; mkRule 8 2 5000 20000]] in
+  let fungal := mkMults (1, 1) (3, 2) in
+  let ops := [OpFromFiles 0 fungal; OpCopy 0 [7] true unit_mults; OpCopy 1 [] false (mkMults (2, 1) (2, 1));
+              OpInit 0 [7] (mkMults (2, 1) (2, 1)); OpCopy 7 [] true unit_mults] in
+  api_spec files [] ops =
+    [Some (rule_files files 0, fungal); Some ([mkRule 7 1 20000 10000], fungal);
+     Some ([mkRule 7 1 20000 10000], mkMults (2, 1) (2, 1)); Some ([mkRule 7 1 20000 15000], mkMults (2, 1) (2, 1)); None] /\
+  observe_api files ops =
+    [5; 0; 1; 1; 3; 2; 2; 7; 1; 20000; 15000; 8; 2; 5000; 30000;
+        0; 1; 1; 3; 2; 1; 7; 1; 20000; 15000;
+        0; 2; 1; 2; 1; 1; 7; 1; 40000; 20000;
+        0; 2; 1; 2; 1; 1; 7; 1; 40000; 30000;
+        1; E_Index].
+Proof. split; vm_compute; reflexivity. Qed.
 
 (* the cache itself: asking again for what was just answered returns the same ruleset and leaves
    the state (cache and rule objects) as it is *)
